@@ -6,6 +6,7 @@ import TrimeshVerif.Proofs.Slice
 import TrimeshVerif.Proofs.SliceRat
 import TrimeshVerif.Proofs.SlicePieces
 import TrimeshVerif.Proofs.SectionLoops
+import TrimeshVerif.Generated.C11Table
 namespace TV.C11
 open TV.Mat3 TV.Affine TV.Remesh TV.Slice
 
@@ -149,6 +150,26 @@ theorem C11_rat_slice_oriented (tol : Rat) (htol : 0 ≤ tol) (n o : TV.Slice.V)
       TV.Slice.areaVecR piece = TV.Slice.smulV k (TV.Slice.areaVecR t) :=
   slice_pieces_oriented tol htol n o t hgen
 
+
+
+/-! ### (G) the case table of the source -/
+
+/-- the code of a sign triple computed with the constants recovered from the source -/
+def codedGen (a b c : Int) : Int :=
+  let s := sort3 a b c
+  TV.Generated.C11.codeBase + s.1 * 2 ^ (TV.Generated.C11.shifts.getD 0 0) + s.2.1 * 2 ^ (TV.Generated.C11.shifts.getD 1 0)
+    + s.2.2 * 2 ^ (TV.Generated.C11.shifts.getD 2 0)
+
+/-- (G) **the case table of `triangle_cases` in the current source is the one the theorems are about**: for all 27
+    sign patterns the code is a valid index of the lookup array, and the codes the source switches on for `basic`,
+    `one_vertex`, `one_edge` select exactly the patterns the model's `isBasic`, `isOneVertex`, `isOneEdge` select -/
+theorem C11_case_table_of_source :
+    allTriples.all (fun t =>
+      let a := t.1; let b := t.2.1; let c := t.2.2
+      decide (0 ≤ codedGen a b c) && decide (codedGen a b c < TV.Generated.C11.keyLen) &&
+      (TV.Generated.C11.basicKeys.contains (codedGen a b c) == isBasic a b c) &&
+      (TV.Generated.C11.oneVertexKeys.contains (codedGen a b c) == isOneVertex a b c) &&
+      (TV.Generated.C11.oneEdgeKeys.contains (codedGen a b c) == isOneEdge a b c)) = true := by decide
 
 /-! ### the whole section: closed loops -/
 
